@@ -81,6 +81,17 @@ pub struct Composite
     ops: Vec<SubGate>
 }
 
+#[cfg(feature = "verif")]
+impl Composite
+{
+    /// Verification hook (read-only): the description of every sub-gate and the
+    /// local qubits it acts on, in order.
+    pub fn verif_ops(&self) -> Vec<(String, Vec<usize>)>
+    {
+        self.ops.iter().map(|op| (op.gate.description().to_string(), op.bits.clone())).collect()
+    }
+}
+
 impl Composite
 {
     /// Create a new composite gate.
